@@ -1,0 +1,38 @@
+//go:build verif
+// +build verif
+
+package restful
+
+import "sync"
+
+// Hooks for the deterministic simulator kept outside this repository.
+// They are compiled in only with the build tag "verif" and do nothing unless SimHook is set.
+
+// SimHook kinds.
+const (
+	SimKindYield = 0 // a: nil
+	SimKindLock  = 1 // a: *sync.RWMutex about to be locked, write: Lock (true) or RLock (false)
+	SimKindSend  = 2 // a: func() bool reporting whether the channel about to be sent on is full
+)
+
+// SimHook is called at schedule points that have no other seam: before every lock acquisition
+// and before a blocking channel send.
+var SimHook func(kind int, site string, a interface{}, write bool)
+
+func simYield(site string) {
+	if SimHook != nil {
+		SimHook(SimKindYield, site, nil, false)
+	}
+}
+
+func simLock(site string, mu *sync.RWMutex, write bool) {
+	if SimHook != nil {
+		SimHook(SimKindLock, site, mu, write)
+	}
+}
+
+func simSend(site string, full func() bool) {
+	if SimHook != nil {
+		SimHook(SimKindSend, site, full, true)
+	}
+}
